@@ -35,7 +35,8 @@ SPEC = {
                     'each merchant has a single category/subcategory'],
 }
 
-CATS = [('Food', 'Grocery'), ('Food', 'Coffee'), ('Bills', 'Rent'), ('Shopping', 'Online'), ('Subscriptions', 'Streaming'), ('Travel', '')]
+CATS = [('Food', 'Grocery'), ('Food', 'Coffee'), ('Bills', 'Rent'), ('Shopping', 'Online'), ('Subscriptions', 'Streaming'), ('Travel', ''),
+        ('Cafe\u0301', 'Bar')]      # (decomposed accent, as some editors and file systems write it: the text is what it is, in the rules and in the views file)
 TAGS = ['business', 'recurring', 'Large', 'S\u00fc\u00dfes', '\u039b\u039f\u0393\u0391\u03a1\u0399\u0391\u03a3\u039c\u038c\u03a3',
         # ordinary tags that merely CONTAIN a special word: only the exact words income / transfer / investment keep a merchant out of the views
         'income-tax', 'reinvestment', 'transfer-fee', 'Transferred', 'non-income']
@@ -296,7 +297,7 @@ def gfilter(rnd, d=2):
     if c <= 3:
         return '%s %s %s' % (num(), rnd.choice(['<', '<=', '>', '>=']), rnd.choice(['0', '1', '2', '3', '6', '0.3', '100', '1000', '50.5', '12', '0.5']))
     if c == 4:
-        return 'category %s "%s"' % (rnd.choice(['==', '!=']), rnd.choice(['Food', 'food', 'Bills', 'X', 'TRAVEL']))
+        return 'category %s "%s"' % (rnd.choice(['==', '!=']), rnd.choice(['Food', 'food', 'Bills', 'X', 'TRAVEL', 'Cafe\u0301', 'Caf\u00e9', 'cafe\u0301']))
     if c == 5:
         return 'subcategory == "%s"' % rnd.choice(['Grocery', 'COFFEE', 'Rent', ''])
     if c == 6:
@@ -392,7 +393,20 @@ def judge(rec, rnd, txns, gl, views):
     st = A.analyze_transactions(copy.deepcopy(txns))
     text = render_views(gl, views)
     try:
-        cfg = parse_sections(text)
+        if len(text) % 2:
+            cfg = parse_sections(text)
+        else:
+            # ... read from disk, the way `tally up` gets it
+            import os as _os, tempfile as _tf
+            from tally.section_engine import load_sections
+            fd, vp = _tf.mkstemp(suffix='.rules', prefix='vt-c10-v-')
+            with _os.fdopen(fd, 'w', encoding='utf-8') as f:
+                f.write(text)
+            try:
+                cfg = load_sections(vp)
+            finally:
+                _os.unlink(vp)
+            rec.count('views_files_loaded_from_disk')
     except Exception as e:
         rec.violation('valid-views-file-rejected', f'{type(e).__name__}: {e}', case)
         return
@@ -561,6 +575,13 @@ def witness_periods(rec):
              {'name': 'Var', 'locals': [('m2', 'months * 2')], 'filter': 'm2 >= 4'}, {'name': 'Share', 'locals': [], 'filter': 'months / period("month") >= 0.9'},
              {'name': 'Per year', 'locals': [], 'filter': 'period("year") == 2 and months >= per'}]
     judge(rec, rnd, two, [('per', 'period("year")')], views)
+    # text written with a decomposed accent in the rules (category, tag) and in the views file alike; both ways of getting the views (text / file on disk)
+    nfd = [dict(tx('Bistro', 2025, 1, 5, 25.0, 'Cafe\u0301'), tags=['cafe\u0301']), tx('Grocer', 2025, 1, 6, 80.0, 'Food'), dict(tx('Diner', 2025, 2, 6, 18.0, 'Caf\u00e9'), tags=['caf\u00e9'])]
+    for pad in ('P', 'PP'):
+        views = [{'name': 'Decomposed', 'locals': [], 'filter': 'category == "Cafe\u0301"'}, {'name': 'Composed', 'locals': [], 'filter': 'category == "Caf\u00e9"'},
+                 {'name': 'Not decomposed', 'locals': [], 'filter': 'category != "cafe\u0301"'}, {'name': 'Tagged', 'locals': [], 'filter': '"cafe\u0301" in tags'},
+                 {'name': pad, 'locals': [], 'filter': 'total > 50'}]
+        judge(rec, rnd, nfd, [], views)
     rec.count('fixed_period_scenarios', 2)
 
 
